@@ -34,3 +34,62 @@ theorem relabelGate_positional : ∀ (declared requested : List Nat), declared.N
     rw [map_lookup_cons d r _ ds hd, ih]
 
 end QV.KrausInit
+
+namespace QV.KrausInit
+
+theorem mem_insertSorted (x y : Nat) : ∀ l : List Nat, y ∈ insertSorted x l ↔ y = x ∨ y ∈ l
+  | [] => by simp [insertSorted]
+  | z :: zs => by
+    unfold insertSorted
+    split
+    · simp
+    · split
+      · rename_i h; subst h; simp
+      · simp only [List.mem_cons, mem_insertSorted x y zs]
+        constructor
+        · rintro (h | h | h)
+          · exact Or.inr (Or.inl h)
+          · exact Or.inl h
+          · exact Or.inr (Or.inr h)
+        · rintro (h | h | h)
+          · exact Or.inr (Or.inl h)
+          · exact Or.inl h
+          · exact Or.inr (Or.inr h)
+
+theorem mem_sortedSet (y : Nat) : ∀ l : List Nat, y ∈ sortedSet l ↔ y ∈ l
+  | [] => by simp [sortedSet]
+  | x :: xs => by
+    have ih := mem_sortedSet y xs
+    unfold sortedSet at *
+    simp only [List.foldr_cons, mem_insertSorted, ih, List.mem_cons]
+
+theorem pairwise_insertSorted (x : Nat) : ∀ l : List Nat, l.Pairwise (· < ·) →
+    (insertSorted x l).Pairwise (· < ·)
+  | [], _ => by simp [insertSorted]
+  | z :: zs, h => by
+    have hz := List.pairwise_cons.mp h
+    unfold insertSorted
+    split
+    · rename_i hlt
+      refine List.pairwise_cons.mpr ⟨?_, h⟩
+      intro a ha
+      rcases List.mem_cons.mp ha with rfl | ha
+      · exact hlt
+      · exact Nat.lt_trans hlt (hz.1 a ha)
+    · split
+      · exact h
+      · rename_i h1 h2
+        refine List.pairwise_cons.mpr ⟨?_, pairwise_insertSorted x zs hz.2⟩
+        intro a ha
+        rcases (mem_insertSorted x a zs).mp ha with rfl | ha
+        · omega
+        · exact hz.1 a ha
+
+theorem pairwise_sortedSet : ∀ l : List Nat, (sortedSet l).Pairwise (· < ·)
+  | [] => by simp [sortedSet]
+  | x :: xs => by
+    have ih := pairwise_sortedSet xs
+    unfold sortedSet at *
+    simpa using pairwise_insertSorted x _ ih
+
+end QV.KrausInit
